@@ -1,6 +1,7 @@
 import QuantemModel.Core.Proto
 import QuantemModel.Model.SaveFs
 import QuantemModel.Model.SaveFront
+import QuantemModel.Model.SaveInstall
 import QuantemModel.Model.SerializeTrace
 import QuantemModel.Core.SerializeJson
 open Lean QuantemModel QuantemModel.Proto QuantemModel.SaveFs
@@ -28,6 +29,50 @@ def stepToStr : Step → String
   | .stageOpen => "stageOpen" | .tmpWrite => "tmpWrite" | .stageWrite => "stageWrite"
   | .stageFinish => "stageFinish" | .removeOld => "removeOld" | .replace => "replace"
 
+open QuantemModel.SaveInstall in
+def entOfJson (j : Json) : Except String Ent :=
+  match j with
+  | .null => pure .none
+  | .str "file" => pure (some .file)
+  | .str "dir:empty" => pure (some (.dir true))
+  | .str "dir:nonempty" => pure (some (.dir false))
+  | .str "link:dir" => pure (some (.link true false))
+  | .str "link:file" => pure (some (.link false false))
+  | .str "link:dangling" => pure (some (.link false true))
+  | _ => throw "ent"
+
+open QuantemModel.SaveInstall in
+def entToJson : Ent → Json
+  | .none => .null
+  | some .file => "file"
+  | some (.dir true) => "dir:empty"
+  | some (.dir false) => "dir:nonempty"
+  | some (.link _ true) => "link:dangling"
+  | some (.link true false) => "link:dir"
+  | some (.link false false) => "link:file"
+
+open QuantemModel.SaveInstall in
+/-- primitives and helpers of Model/SaveInstall.lean on entry kinds -/
+def kindsOp (fn : String) (a b : Ent) : Except String Json :=
+  let one (r : Except String Ent) : Json :=
+    match r with
+    | .ok e => Json.mkObj [("a", entToJson e)]
+    | .error e => Json.mkObj [("raises", Json.str e)]
+  let two (r : Except String (Ent × Ent)) : Json :=
+    match r with
+    | .ok (x, y) => Json.mkObj [("a", entToJson x), ("b", entToJson y)]
+    | .error e => Json.mkObj [("raises", Json.str e)]
+  match fn with
+  | "remove" => pure (one (osRemove a))
+  | "rmtree" => pure (one (rmtree a))
+  | "rmtreeIgnore" => pure (one (.ok (rmtreeIgnore a)))
+  | "replace" => pure (two (osReplace a b))
+  | "install" => pure (two (install a b))
+  | "discard" => pure (one (SaveInstall.discard a))
+  | "preds" => pure (Json.mkObj [("isdir", Json.bool (isdir a)), ("islink", Json.bool (islink a)),
+      ("lexists", Json.bool (lexists a)), ("exists", Json.bool (pexists a))])
+  | _ => throw s!"kinds fn {fn}"
+
 def fsOfJson (j : Json) : Except String Fs := do
   (← j.getArr?).toList.mapM fun it => do
     let pr ← it.getArr?
@@ -45,6 +90,8 @@ def step (st : Unit) (j : Json) : Unit × Json :=
       let nm : QuantemModel.Serialize.W → String
         | .group => "group" | .attr => "attr" | .array => "array" | .bytes => "bytes"
       pure (okJson (Json.arr (tr.map fun w => Json.str (nm w)).toArray))
+    else if op == "kinds" then
+      pure (okJson (← kindsOp (← strField j "fn") (← entOfJson (fieldD j "a" .null)) (← entOfJson (fieldD j "b" .null))))
     else if op == "front" then
       -- the front end of save(): validation, store inference, suffix, existence check (Model/SaveFront.lean)
       let existing ← (← arrField j "exists").toList.mapM fun e => do pure (← e.getStr?).toList
